@@ -680,6 +680,12 @@ def _plain(fn: FunctionInfo) -> bool:
         if name.split(".")[-1] in ("lru_cache", "cache") and _pure_of_primitives(fn):
             continue
         return False
+    # a mutable default is one object shared by all calls: binding a fresh one at each inlined call site would hide that sharing
+    a = fn.node.args
+    for d in list(a.defaults) + [k for k in a.kw_defaults if k is not None]:
+        if isinstance(d, (ast.List, ast.Dict, ast.Set, ast.ListComp, ast.DictComp, ast.SetComp)) or \
+                (isinstance(d, ast.Call) and (dotted(d.func) or "") not in ("frozenset", "tuple", "int", "str", "bytes", "float", "bool")):
+            return False
     return True
 
 
